@@ -2,6 +2,7 @@ import NodisVerif.Proofs.C20Finds
 import NodisVerif.Proofs.C20Keys
 import NodisVerif.Proofs.C20ZStoreEx
 import NodisVerif.Proofs.ProtoWireMsg
+import NodisVerif.Proofs.ProtoWireBad
 import NodisVerif.Model.FeedWire
 /-
   C20 — The change feed replays on a replica.
@@ -509,6 +510,40 @@ theorem decode_total :
     exact decodeLoop_fuel sch f b.length b m h (Nat.le_refl _)
   · intro f stack b h
     exact skipGroup_fuel f (b.length + 1) stack b h (Nat.lt_succ_self _)
+
+/-- the other half of the round trip — known finding A-200 in general form. A record a Go program can
+    build (`Op.typed`: kinds fit, int64 in range, lengths below 2^63; strings hold any bytes) that is not
+    well-formed (some `string` field or element of a repeated string is not valid UTF-8): Marshal fails,
+    `Op.Encode` ships the truncated message, and DecodeOp ALWAYS rejects it -/
+theorem encode_rejected (op : Op) (ht : op.typed = true) (hn : op.wf = false) :
+    encodeFails op = true ∧ decodeOp (encodeOp op) = .error .wire :=
+  decodeOp_encodeOp_bad ht hn
+
+/-- together: a record a Go program can build arrives as itself exactly when it is well-formed, and it
+    never arrives as another record -/
+theorem decodeOp_encodeOp_iff (op : Op) (ht : op.typed = true) :
+    (decodeOp (encodeOp op) = .ok op ↔ op.wf = true) ∧
+    (∀ op', decodeOp (encodeOp op) = .ok op' → op' = op) := by
+  cases hw : op.wf with
+  | true =>
+    have h := Proofs.ProtoWire.decodeOp_encodeOp hw
+    refine ⟨⟨fun _ => rfl, fun _ => h⟩, ?_⟩
+    intro op' h'
+    rw [h] at h'
+    exact (Except.ok.inj h').symm
+  | false =>
+    have h := (decodeOp_encodeOp_bad ht hw).2
+    refine ⟨⟨fun h' => ?_, fun h' => by cases h'⟩, ?_⟩
+    · rw [h] at h'; cases h'
+    · intro op' h'
+      rw [h] at h'; cases h'
+
+/-- hypotheses satisfiable: typed, not well-formed (an element of HDEL's repeated string is not UTF-8) -/
+example : ({ typ := 6, msg := { vals := [.bytes [104], .list [[102], [0xc3, 0x28], [103]]] } } : Op).typed = true ∧
+    ({ typ := 6, msg := { vals := [.bytes [104], .list [[102], [0xc3, 0x28], [103]]] } } : Op).wf = false ∧
+    encodeOp { typ := 6, msg := { vals := [.bytes [104], .list [[102], [0xc3, 0x28], [103]]] } }
+      = [6, 0x0a, 1, 104, 0x12, 1, 102, 0x12, 2, 0xc3, 0x28] := by
+  decide +kernel
 
 /-- hypotheses satisfiable: a SET record with a two-byte UTF-8 key, a value that is not UTF-8, KeepTTL and
     a negative deadline; its encoding, byte for byte; a ZUNIONSTORE record with an empty operand name and
